@@ -73,7 +73,72 @@ func (e *Exec) ghostAt(c *Ctx, hf *Frame, key string) {
 	}
 }
 
+// call2 wraps the dispatch with the copy-in / copy-out model of field addresses passed as arguments: f(&x.fld) gets a
+// fresh cell holding x.fld; when the call returns the cell's value is written back to x.fld. (Sound for callees that use
+// the pointer only during the call, which is what out-parameters are.)
 func (e *Exec) call2(call *ast.CallExpr, c *Ctx, want int) []Term {
+	type outArg struct {
+		sel  *ast.SelectorExpr
+		cell Term
+		in   Term
+	}
+	var outs []outArg
+	if !c.spec && !c.st.dead() {
+		for _, a := range call.Args {
+			u, ok := unparen(a).(*ast.UnaryExpr)
+			if !ok || u.Op != token.AND {
+				continue
+			}
+			sel, ok := unparen(u.X).(*ast.SelectorExpr)
+			if !ok {
+				continue
+			}
+			if _, isField := c.fr.info.Selections[sel]; !isField {
+				continue
+			}
+			tv, ok := c.fr.info.Types[u]
+			if !ok {
+				continue
+			}
+			pt := e.prog.TypeOf(tv.Type, c.fr.subst)
+			if pt.K != KRef || pt.Name != "" || pt.Elem == nil {
+				continue // pointer to a struct-typed field: an object reference, not a cell
+			}
+			cur := e.eval(sel, c)
+			// a temporary of this call only: not an allocation the contract has to declare
+			wasListed := e.allocKinds["cell"]
+			r := Term{e.alloc(c.st, "cell"), pt}
+			if !wasListed {
+				delete(e.allocKinds, "cell")
+			}
+			cur = e.coerce(cur, pt.Elem, c.st)
+			at := &Type{K: KGMap, Key: tInt, Elem: pt.Elem}
+			key := "P!" + mangle(e.Sort(pt.Elem))
+			h := e.get(c.st, key, at)
+			e.set(c.st, key, Term{fmt.Sprintf("(store %s %s %s)", h.S, r.S, cur.S), at})
+			if e.addrCells == nil {
+				e.addrCells = map[*ast.UnaryExpr]Term{}
+			}
+			e.addrCells[u] = r
+			outs = append(outs, outArg{sel, r, cur})
+		}
+	}
+	res := e.call3(call, c, want)
+	for _, o := range outs {
+		if c.st.dead() {
+			break
+		}
+		at := &Type{K: KGMap, Key: tInt, Elem: o.cell.T.Elem}
+		h := e.get(c.st, "P!"+mangle(e.Sort(o.cell.T.Elem)), at)
+		// a contract may also describe the effect on the field itself (modifies x.fld / allof(T.fld)): the value written
+		// through the pointer wins only if the cell was written
+		after := e.coerce(e.eval(o.sel, c), o.cell.T.Elem, c.st)
+		e.assign(o.sel, Term{fmt.Sprintf("(ite (= (select %s %s) %s) %s (select %s %s))", h.S, o.cell.S, o.in.S, after.S, h.S, o.cell.S), o.cell.T.Elem}, c)
+	}
+	return res
+}
+
+func (e *Exec) call3(call *ast.CallExpr, c *Ctx, want int) []Term {
 	info := c.fr.info
 	fun := unparen(call.Fun)
 	// conversion
@@ -1167,6 +1232,17 @@ func (e *Exec) havocTarget(m ast.Expr, st *State, fr *Frame, bound map[string]Te
 		}
 		if x.Name == "now" {
 			e.advanceTime(st, "0")
+			return
+		}
+	case *ast.StarExpr:
+		// modifies *p: the cell p points to
+		p := e.eval(x.X, sc)
+		if p.T.K == KRef && p.T.Name == "" && p.T.Elem != nil {
+			at := &Type{K: KGMap, Key: tInt, Elem: p.T.Elem}
+			key := "P!" + mangle(e.Sort(p.T.Elem))
+			h := e.get(st, key, at)
+			nv := e.vc.FreshConst("hv_cell", e.Sort(p.T.Elem))
+			e.set(st, key, Term{fmt.Sprintf("(store %s %s %s)", h.S, p.S, nv), at})
 			return
 		}
 	case *ast.SelectorExpr:
